@@ -149,3 +149,47 @@ func H_C10_Layout() {
 	nd.Assert(bytes.Equal(k.Padding, in[cs:384-ss]), "layout/padding-between")
 	nd.Assert(k.KeyCertificate.CryptoSize() == cs && k.KeyCertificate.SigningPublicKeySize() == ss, "layout/declared-sizes")
 }
+
+// H_C10_LayoutConstructor: the constructor side of the key block: NewKeysAndCert(keys, padding).Bytes() puts the crypto key at the start of the 384-byte block, the signing key at its end and the padding exactly between, for the key types the library can construct (X25519 / ElGamal crypto; Ed25519, DSA, P256, P384 signing).
+//
+//verif:props C10 C02
+//verif:witness built
+func H_C10_LayoutConstructor() {
+	sigs := []int{7, 0, 1, 2, 11}
+	crys := []int{4, 0}
+	st, ct := sigs[nd.IntRange(0, len(sigs)-1)], crys[nd.IntRange(0, 1)]
+	kc, err := key_certificate.NewKeyCertificateWithTypes(st, ct)
+	nd.Assume(err == nil)
+	ss, _, _ := specSigning(st)
+	cs, _ := specCrypto(ct)
+	cb, sb := nd.Bytes(cs), nd.Bytes(ss)
+	pk, perr := kc.ConstructPublicKey(append(append([]byte{}, cb...), make([]byte, 256-cs)...))
+	nd.Assume(perr == nil)
+	// ConstructSigningPublicKey takes exactly the key bytes for Ed25519-family keys and reads the END of a
+	// 128-byte field for the others
+	var skIn []byte
+	if ss == 32 {
+		skIn = sb
+	} else {
+		skIn = append(make([]byte, 128-ss), sb...)
+	}
+	sk, serr := kc.ConstructSigningPublicKey(skIn)
+	nd.Assume(serr == nil)
+	pad := nd.Bytes(384 - cs - ss)
+	k, kerr := keys_and_cert.NewKeysAndCert(kc, pk, pad, sk)
+	nd.Assert(kerr == nil, "layoutctor/constructed")
+	if kerr != nil {
+		return
+	}
+	out, berr := k.Bytes()
+	nd.Assert(berr == nil && len(out) == 391, "layoutctor/serialises")
+	if berr != nil || len(out) != 391 {
+		return
+	}
+	nd.Cover("built")
+	nd.Assert(bytes.Equal(out[0:cs], cb), "layoutctor/crypto-key-at-start")
+	nd.Assert(bytes.Equal(out[384-ss:384], sb), "layoutctor/signing-key-at-end")
+	nd.Assert(bytes.Equal(out[cs:384-ss], pad), "layoutctor/padding-between")
+	nd.Assert(bytes.Equal(out[384:391], []byte{5, 0, 4, byte(st >> 8), byte(st), byte(ct >> 8), byte(ct)}), "layoutctor/key-certificate")
+	nd.Assert(pk.Len() == cs && sk.Len() == ss, "layoutctor/declared-sizes-equal-key-lengths")
+}
